@@ -2,6 +2,7 @@ package c11
 
 import (
 	"fmt"
+	"math"
 	"testing"
 
 	"verif/internal/h"
@@ -27,6 +28,9 @@ type DFTCase struct {
 	LogBSGS  int    `json:"logBSGS"`
 	NP       int    `json:"nP"`
 	Seed     uint64 `json:"seed"`
+	// RoundTrip: CoeffsToSlots followed by SlotsToCoeffs with the same literal shape; the composition of the homomorphic
+	// IDFT and DFT is the identity on the encrypted polynomial, so the decoded slots must come back (value check).
+	RoundTrip bool `json:"roundTrip,omitempty"`
 }
 
 func (c DFTCase) RandSeed() uint64 { return c.Seed }
@@ -54,10 +58,106 @@ func genDFT(t *rapid.T) DFTCase {
 	c.LogBSGS = rapid.IntRange(0, 2).Draw(t, "logBSGS")
 	c.NP = rapid.IntRange(1, 2).Draw(t, "nP")
 	c.Seed = rapid.Uint64().Draw(t, "seed")
+	c.RoundTrip = rapid.Bool().Draw(t, "roundTrip")
 	return c
 }
 
+// runDFTRoundTrip: values. decode(SlotsToCoeffs(CoeffsToSlots(ct))) = decode(ct) up to the precision of the scale.
+func runDFTRoundTrip(c DFTCase, rec *h.Rec) error {
+	nMat := 0
+	for _, l := range c.Levels {
+		nMat += l
+	}
+	const logScale = 45
+	spec := h.CKKSSpec{RLWESpec: h.RLWESpec{LogN: c.LogN, Xs: h.DefaultXs, Xe: h.DefaultXe, NTT: true}, LogScale: logScale}
+	m := spec.NthRoot()
+	spec.Q = append(h.Primes(58, m, 1, true), h.Primes(logScale, m, 2*nMat+1, true)...)
+	spec.P = h.Primes(61, m, c.NP, true)
+	p, err := spec.Build()
+	if err != nil {
+		return h.Failf("C11:ckks:params", "cannot build parameters: %v", err)
+	}
+	sparse := c.LogSlots < p.LogMaxSlots()
+	if sparse && dft.Format(c.Format) == dft.SplitRealAndImag {
+		// CoeffsToSlotsNew only returns the imaginary part for full packing: no round trip to check
+		rec.Class("roundtrip=n/a(sparse split)")
+		return nil
+	}
+	lit := func(tp dft.Type, levelQ int) dft.MatrixLiteral {
+		return dft.MatrixLiteral{Type: tp, LogSlots: c.LogSlots, LevelQ: levelQ, LevelP: p.MaxLevelP(), Levels: c.Levels,
+			Format: dft.Format(c.Format), BitReversed: c.BitRev, LogBSGSRatio: c.LogBSGS}
+	}
+	litE, litD := lit(dft.HomomorphicEncode, p.MaxLevel()), lit(dft.HomomorphicDecode, p.MaxLevel()-nMat)
+	ecd := ckks.NewEncoder(p, 90)
+	matE, err := dft.NewMatrixFromLiteral(p, litE, ecd)
+	if err != nil {
+		rec.Class("matrix-error")
+		return nil
+	}
+	matD, err := dft.NewMatrixFromLiteral(p, litD, ecd)
+	if err != nil {
+		rec.Class("matrix-error")
+		return nil
+	}
+	kgen := rlwe.NewKeyGenerator(p)
+	sk := kgen.GenSecretKeyNew()
+	enc := rlwe.NewEncryptor(p, sk)
+	dec := rlwe.NewDecryptor(p, sk)
+	galEls := append(append(litE.GaloisElements(p), litD.GaloisElements(p)...), p.GaloisElementForComplexConjugation())
+	keys := keysFor(kgen, sk, galEls, 0)
+	eval := dft.NewEvaluator(p, ckks.NewEvaluator(p, keys))
+	snap := snapshot(sk, keys)
+
+	slots := 1 << c.LogSlots
+	vals := distinctC(c.Seed, slots, false)
+	pt := ckks.NewPlaintext(p, p.MaxLevel())
+	pt.LogDimensions = ring.Dimensions{Rows: 0, Cols: c.LogSlots}
+	if err := ecd.Encode(vals, pt); err != nil {
+		return h.Failf("C11:ckks:encode", "Encode: %v", err)
+	}
+	ct, err := enc.EncryptNew(pt)
+	if err != nil {
+		return h.Failf("C11:ckks:encrypt", "EncryptNew: %v", err)
+	}
+	detail := fmt.Sprintf("%+v N=%d slots=%d", c, p.N(), slots)
+	re, im, err := eval.CoeffsToSlotsNew(ct, matE)
+	if err != nil {
+		if len(keys.missing) > 0 || isMissingKey(err) {
+			return h.Failf("C11:dft:CoeffsToSlots:missing-key", "%s: %v (missing %v)", detail, err, keys.missing)
+		}
+		return h.Failf("C11:dft:CoeffsToSlots:error", "%s: %v", detail, err)
+	}
+	out, err := eval.SlotsToCoeffsNew(re, im, matD)
+	if err != nil {
+		if len(keys.missing) > 0 || isMissingKey(err) {
+			return h.Failf("C11:dft:SlotsToCoeffs:missing-key", "%s: %v (missing %v)", detail, err, keys.missing)
+		}
+		return h.Failf("C11:dft:SlotsToCoeffs:error", "%s: %v", detail, err)
+	}
+	have := make([]complex128, slots)
+	if err := ecd.Decode(dec.DecryptNew(out), have); err != nil {
+		return h.Failf("C11:ckks:decode", "Decode: %v", err)
+	}
+	// precision floor as a function of the literal: scale, ring degree and number of matrices (observed error is about
+	// 2^-36 for N=64 and four matrices; a wrong diagonal or rotation gives an error of order 1)
+	tol := math.Exp2(float64(c.LogN + 4*nMat + 14 - logScale))
+	if i, d := firstDiffC(have, vals, tol, nil); i >= 0 {
+		return h.Failf("C11:dft:roundtrip:value", "%s: slot %d = %v after CoeffsToSlots+SlotsToCoeffs, expected %v (|diff|=%.3g > tol %.3g)\n have %s\n want %s", detail, i, have[i], vals[i], d, tol, fmtC(have, 6), fmtC(vals, 6))
+	}
+	if ch := sameSnapshot(snap, snapshot(sk, keys)); ch != "" {
+		return h.Failf("C11:dft:key-material-modified", "%s: %s changed", detail, ch)
+	}
+	rec.Class("op=RoundTrip")
+	rec.Classf("format=%d", c.Format)
+	rec.Classf("sparse=%v", sparse)
+	rec.NonTrivial(fmt.Sprintf("dft|roundtrip|logN=%d|logSlots=%d|fmt=%d|levels=%v|bitrev=%v|bsgs=%d", c.LogN, c.LogSlots, c.Format, c.Levels, c.BitRev, c.LogBSGS))
+	return nil
+}
+
 func runDFT(c DFTCase, rec *h.Rec) error {
+	if c.RoundTrip {
+		return runDFTRoundTrip(c, rec)
+	}
 	spec := h.CKKSSpec{RLWESpec: h.RLWESpec{LogN: c.LogN, Xs: h.DefaultXs, Xe: h.DefaultXe, NTT: true}, LogScale: 40}
 	m := spec.NthRoot()
 	depth := 1
